@@ -5,7 +5,8 @@
    (otherwise the implementation itself reports MissingAddress: known finding K16). *)
 From Coq Require Import List ZArith.
 From Model Require Import Key Sel GFI.
-From Proofs Require Import GFIBase GFIRef GFIWf GFIConsistent GFISim.
+From Model Require Import GFIEdit.
+From Proofs Require Import GFIBase GFIRef GFIWf GFIConsistent GFISim GFIEditProofs.
 
 Theorem C01_simulate_agrees_with_assess : forall g k a t,
   wfg g -> simulate g k a = Ok t -> sites_live t ->
@@ -29,6 +30,19 @@ Proof.
   rewrite assess_is_ref_sum, Hr. simpl. rewrite Hs. reflexivity.
 Qed.
 Print Assumptions C01_wellformed_trace_agrees.
+
+(* ... "update or edit": an Update or Regenerate edit of such a trace (with any new arguments and tags) again gives one,
+   and so do chains of them *)
+Theorem C01_edited_trace_agrees_with_assess : forall g k t r a tg t' w b,
+  wfg g -> plain r -> wft g t -> edit g k t r a tg = Ok (t', w, b) -> sites_live t' ->
+  assess g (t_choices t') (t_args t') = Ok (t_score t', t_retval t').
+Proof.
+  intros g k t r a tg t' w b Hg Hp Hw H Hl.
+  destruct (edit_ok g k t r a tg t' w b Hg Hp Hw H) as [Hw' _].
+  destruct (proj1 wft_ref_all g Hg t' Hw' Hl) as [Hr Hs].
+  rewrite assess_is_ref_sum, Hr. simpl. rewrite Hs. reflexivity.
+Qed.
+Print Assumptions C01_edited_trace_agrees_with_assess.
 
 (* ---- non-vacuity: concrete non-trivial programs and traces meeting the hypotheses above (proofs/GFIWitness.v) ---- *)
 From Proofs Require Import GFIWitness.
